@@ -45,16 +45,30 @@ func (e *Engine) verifyFunc(fn *ssa.Function, fc *FuncContract) (vcs []*VC, err 
 		// opaque predicates met during execution are decided by further splitting
 		type dcase struct {
 			dec  map[string]bool
+			vdec map[string]int64
 			name string
 		}
-		queue := []dcase{{map[string]bool{}, ""}}
+		queue := []dcase{{map[string]bool{}, map[string]int64{}, ""}}
 		for len(queue) > 0 {
 			dc := queue[0]
 			queue = queue[1:]
 			vc := e.newVC(base + c.name + dc.name)
 			vc.Contract = fc
 			vc.decisions = dc.dec
+			vc.valDecisions = dc.vdec
 			err := e.runVC(vc, fn, fc, c.vals)
+			if nd, ok := err.(needDecision); ok && nd.values != nil {
+				for _, v := range nd.values {
+					m := map[string]int64{}
+					for k, x := range dc.vdec {
+						m[k] = x
+					}
+					m[nd.key] = v
+					queue = append(queue, dcase{dc.dec, m, fmt.Sprintf("%s#%s=%d", dc.name, strings.ReplaceAll(nd.key, " ", ""), v)})
+				}
+				delete(e.used, vc)
+				continue
+			}
 			if nd, ok := err.(needDecision); ok {
 				if len(dc.dec) >= 6 {
 					return nil, fmt.Errorf("%s: too many opaque dispatch decisions", vc.Name)
@@ -66,7 +80,7 @@ func (e *Engine) verifyFunc(fn *ssa.Function, fc *FuncContract) (vcs []*VC, err 
 					}
 					m[nd.key] = b
 					short := nd.key[strings.LastIndex(nd.key, ".")+1:]
-					queue = append(queue, dcase{m, fmt.Sprintf("%s#%s=%v", dc.name, short, b)})
+					queue = append(queue, dcase{m, dc.vdec, fmt.Sprintf("%s#%s=%v", dc.name, short, b)})
 				}
 				delete(e.used, vc)
 				continue
@@ -167,6 +181,18 @@ func (e *Engine) runVC(vc *VC, fn *ssa.Function, fc *FuncContract, splitVals []i
 	env := vc.bindEnv(fc, fn, params, nil, st, st)
 	for i, sp := range fc.Splits {
 		v := env.eval(sp.E)
+		if v.Untyped == nil && v.sort() == SBool {
+			// boolean case split: 1 = holds, 0 = does not hold
+			if splitVals[i] != 0 {
+				vc.assume(v.term())
+			} else {
+				vc.assume(not(v.term()))
+			}
+			if strings.HasPrefix(v.term(), "(select (select ") {
+				vc.consts[v.term()] = map[bool]string{true: "true", false: "false"}[splitVals[i] != 0]
+			}
+			continue
+		}
 		lit := bvLit(v.sort().Bits(), splitVals[i])
 		vc.assume(eq(v.term(), lit))
 		if strings.HasPrefix(v.term(), "(select (select ") {
@@ -248,9 +274,19 @@ func (e *Engine) runVC(vc *VC, fn *ssa.Function, fc *FuncContract, splitVals []i
 	}
 	for i, c := range fc.Ensures {
 		kind := "ensures"
-		o := vc.obligeNoAssume(kind, fmt.Sprintf("postcondition %d of %s: %s", i, fc.Key, c.Text), retReach, post.evalGoal(c.E), c.Tags...)
-		if o != nil && c.Label != "" {
-			o.Name = fmt.Sprintf("%s::ensures[%s]", vc.Name, c.Label)
+		parts := splitConst(c.E)
+		var o *Obligation
+		for pi, pe := range parts {
+			o = vc.obligeNoAssume(kind, fmt.Sprintf("postcondition %d of %s: %s", i, fc.Key, c.Text), retReach, post.evalGoal(pe), c.Tags...)
+			if o != nil {
+				o.Name = fmt.Sprintf("%s::ensures[%d]", vc.Name, i)
+				if c.Label != "" {
+					o.Name = fmt.Sprintf("%s::ensures[%s]", vc.Name, c.Label)
+				}
+				if len(parts) > 1 {
+					o.Name += fmt.Sprintf(".%d", pi)
+				}
+			}
 		}
 		// success-path cover for clauses guarded by err == nil
 		if b, ok := c.E.(Binary); ok && b.Op == "==>" {
@@ -352,4 +388,13 @@ func (e *Engine) verifyLemma(lm *Lemma) (vc *VC, err error) {
 		vc.cover("cover-lemma", "antecedent of lemma "+lm.Name+" is satisfiable", env.evalBool(b.X))
 	}
 	return vc, nil
+}
+
+// obligeNoAssumeKind: like oblige but without assuming the goal afterwards (the path ends here).
+func (vc *VC) obligeNoAssumeKind(kind, note, reach, goal string, tags ...string) *Obligation {
+	full := implies(reach, goal)
+	if full == "true" {
+		return nil
+	}
+	return vc.obligeNoAssume(kind, note, reach, goal, tags...)
 }
